@@ -1,0 +1,36 @@
+//go:build verif
+
+package server
+
+// Contracts for the govc verifier (see /verif/DESIGN.md). Comment-only: declares nothing.
+
+// helpers that only compute the per-target key of a task
+//@ func GetMilvusURI
+//@   props C06 C11
+//@   modifies nothing
+//@ func GetKafkaAddress
+//@   props C06 C11
+//@   ensures result == kafkaConnectParam.Address
+//@   modifies nothing
+//@ func getTaskUniqueIDFromInfo
+//@   props C06 C11
+//@   requires info != nil
+//@   modifies nothing
+
+// ---- C06 / C11: pausing a task -------------------------------------------------------------------------
+// wfTasks: distinct task ids name distinct task records; wfEntities: distinct targets have distinct
+// entities (both are built that way by Create / startInternal / ReloadTask).
+//@ spec wfTasks(e *MetaCDC) bool = e != nil && e.metaStoreFactory != nil && (forall a string, b string :: a in e.cdcTasks.data && b in e.cdcTasks.data && a != b ==> e.cdcTasks.data[a] != e.cdcTasks.data[b])
+//@ spec wfEntities(e *MetaCDC) bool = (forall a string :: a in e.replicateEntityMap.data ==> e.replicateEntityMap.data[a] != nil && e.replicateEntityMap.data[a].taskQuitFuncs != nil) && (forall a string, b string :: a in e.replicateEntityMap.data && b in e.replicateEntityMap.data && a != b ==> e.replicateEntityMap.data[a] != e.replicateEntityMap.data[b] && e.replicateEntityMap.data[a].taskQuitFuncs != e.replicateEntityMap.data[b].taskQuitFuncs)
+
+//@ func (*MetaCDC).pauseTaskWithReason
+//@   props C06 C11
+//@   requires wfTasks(e) && wfEntities(e)
+//@   dyncall modifies nothing
+//@   ensures [the-named-task-ends-paused-with-the-reason] old(taskID in e.cdcTasks.data) && old(e.cdcTasks.data[taskID]) != nil ==> old(e.cdcTasks.data[taskID]).State == meta.TaskStatePaused && old(e.cdcTasks.data[taskID]).Reason == reason
+//@   ensures [no-other-task-changes-state] forall id string :: id != taskID && old(id in e.cdcTasks.data) && old(e.cdcTasks.data[id]) != nil ==> old(e.cdcTasks.data[id]).State == old(e.cdcTasks.data[id].State) && old(e.cdcTasks.data[id]).Reason == old(e.cdcTasks.data[id].Reason)
+//@   ensures [task-list-keeps-its-members] forall id string :: (id in e.cdcTasks.data) == old(id in e.cdcTasks.data)
+//@   ensures [share-of-the-target-released-only-if-this-task-held-one] forall k string :: old(k in e.replicateEntityMap.data) && !old(cmHas(e.replicateEntityMap.data[k].taskQuitFuncs, taskID)) ==> atomicGet(old(e.replicateEntityMap.data[k]).refCnt) == old(atomicGet(e.replicateEntityMap.data[k].refCnt))
+//@   ensures [at-most-one-share-released] forall k string :: old(k in e.replicateEntityMap.data) && old(atomicGet(e.replicateEntityMap.data[k].refCnt)) > 0 ==> atomicGet(old(e.replicateEntityMap.data[k]).refCnt) == old(atomicGet(e.replicateEntityMap.data[k].refCnt)) || atomicGet(old(e.replicateEntityMap.data[k]).refCnt) == old(atomicGet(e.replicateEntityMap.data[k].refCnt)) - 1
+//@   ensures [state-record-written-at-most-once-and-only-for-this-task] metaPuts == old(metaPuts) || (metaPuts == old(metaPuts) + 1 && as(lastMetaPut, "*meta.TaskInfo").State == meta.TaskStatePaused)
+//@   panics never
